@@ -389,6 +389,12 @@ func (p *service) processUnsubscribe(msg *message.UnsubscribeMessage) error {
 // the ack cycle. This method will get the list of subscribers based on the publish
 // topic, and publishes the message to the list of subscribers.
 func (p *service) onPublish(msg *message.PublishMessage) error {
+	// A message without topic name cannot be sent to anybody (the will of a
+	// CONNECT with an invalid will topic ends up like that).
+	if len(msg.Topic()) == 0 {
+		return fmt.Errorf("(%s) message without topic name is not published", p.cid())
+	}
+
 	// The DUP flag of an incoming PUBLISH is not propagated to the
 	// subscribers (MQTT-3.3.1-3); with a QoS 0 subscription it would make
 	// the forwarded packet malformed (MQTT-3.3.1-2).
